@@ -349,11 +349,47 @@ def r9_subscripts_are_numeric(ctx, rule="C12.R9"):
             checks = [t for h in scope for _b, t in h.body.calls()
                       if (t.get("cpath") or "").split("::")[-1] == "can_cast_to"]
             name = g.path.split("::", 1)[1]
+            # the test is `castable to a numeric type, else refuse` - not `refuse what is castable to a
+            # string`: the two agree on numbers and strings only; an unresolved name, a record, a whole
+            # array are castable to nothing and would pass the second form
+            shape_bad = None
+            for h in scope:
+                hpv = mir.Prov(h.body)
+                for cb, t in h.body.calls():
+                    if (t.get("cpath") or "").split("::")[-1] != "can_cast_to" or len(t["args"]) < 2:
+                        continue
+                    o = mir.strip_refs(hpv.of_operand(t["args"][1]))
+                    target = None
+                    if o[0] == "promoted" and o[1] < len(h.promoted):
+                        for blk in h.promoted[o[1]].blocks:
+                            for st in blk["s"]:
+                                if st["k"] == "assign" and st["r"].get("k") == "agg" and (st["r"].get("adt") or "").endswith("::TypeQualifier"):
+                                    target = st["r"].get("variant")
+                    if target is None:
+                        continue
+                    nxt = h.body.term(t["t"])
+                    if nxt["k"] != "switch":
+                        continue
+                    false_t = [tg for v, tg in nxt["ts"] if v == 0]
+                    true_t = nxt["else"]
+                    def refuses(start, avoid):
+                        return any(st["k"] == "assign" and st["r"].get("k") == "agg" and (st["r"].get("adt") or "").endswith("::LintError")
+                                   for bb in h.body.reachable(start, avoid=avoid) for st in h.body.blocks[bb]["s"])
+                    on_false = bool(false_t) and refuses(false_t[0], {true_t})
+                    on_true = refuses(true_t, set(false_t))
+                    if target == "DollarString" or (on_true and not on_false):
+                        shape_bad = (target, t.get("ln"))
+            ctx.decide(shape_bad is None, rule, "%s:%s:refuses-unless-numeric" % (rule, name), g.loc,
+                       "refuses unless castable to a numeric type",
+                       "%s tests the index / bound expressions against %s and refuses on success (line %s) instead of "
+                       "requiring a numeric type: an expression that is castable to nothing (an unresolved name, a record, a "
+                       "whole array) passes - `cards(N).Value` with a fresh N is accepted and the generator does not find N"
+                       % (name, shape_bad[0] if shape_bad else "", shape_bad[1] if shape_bad else ""))
             ctx.decide(bool(checks), rule, "%s:%s" % (rule, name), g.loc,
                        "the index / bound expressions are tested with can_cast_to",
                        "%s builds %s without testing the type of the index / bound expressions: `A(\"x\")` or "
                        "`DIM A(1 TO \"x\")` is accepted by the checker and raises Type mismatch at run time" % (name, what))
-    ctx.require(rule, 2)
+    ctx.require(rule, 4)
 
 
 def r10_array_element_type_field(ctx, rule="C12.R10"):
